@@ -3,6 +3,10 @@
 P: coq/Props/C20.v (functional model: batch = map f -- stack of singles, member independence, permutations, batch of one,
    splitting; blockwise along the last dimension -- grouping of blocks does not matter, single block = the block
    function, rows independent, lengths that are not a whole number of blocks are rejected).
+   Iterative decoders (Batch/IterStop.v): a message-passing loop that runs a fixed number of passes, or that retires rows
+   one by one through an index set, is batch-pure for every step / criterion / budget; a whole-batch stopping test is not
+   (refuted with a witness).  harness/translate/iterloops.py reads which discipline the LDPC BP and polar BP loops follow
+   from the source on every run (Gen/IterLoops.v) and fails closed on any other loop shape.
 T: the layout law (Base/Layout.v blockwise2) is evaluated by the kernel on the component's own single-block answers and
    compared with what the component returns for (B, b*n) inputs.
 S: on the real objects: f(stack xs) = stack f(x) for batches of 1..6 in every permutation (small batches), layouts 1-D /
@@ -16,6 +20,7 @@ import itertools
 
 import fec
 from common import cbool, clist, cnat, import_kaira
+from translate import iterloops
 
 HDR = """From Coq Require Import List Bool Arith.
 Import ListNotations.
@@ -34,7 +39,7 @@ def quiet(f, *a, **k):
 
 
 def run(ctx):
-    ok = ctx.build_props([], ["Batch/C20Cases.vo"])
+    ok = ctx.build_props([iterloops.generate], ["Batch/C20Cases.vo"])
     ctx.log("props built", ok)
     import_kaira()
     import torch
